@@ -1,12 +1,22 @@
 #!/bin/bash
-# usage: try_mutation.sh <seed id> [tier]   -- applies /verif/seeded/<id>/patch.diff to /repo, runs the property's check, reverts.
+# usage: try_mutation.sh <seed id> [tier]
+# Applies /verif/seeded/<id>/patch.diff in a scratch git worktree of /repo HEAD (so that /repo itself and checks running
+# against it are not disturbed), runs the property's check against that tree (VERIF_REPO), records the result in meta.json
+# and removes the worktree.  Equivalent to: git -C /repo apply patch; ./check ...; git -C /repo checkout -- .
 SID=$1; TIER=${2:-quick}
 PID=$(/venv/bin/python -c "import json;print(json.load(open('/verif/seeded/$SID/meta.json'))['property'])")
-cd /repo && git diff --quiet || { echo "/repo not clean"; exit 2; }
-git apply --check /verif/seeded/$SID/patch.diff 2>/dev/null || { echo "$SID: patch does not apply to the current tree (needs rebasing)"; exit 2; }
+WT=/tmp/wt/mut_$SID
+git -C /repo worktree remove --force $WT >/dev/null 2>&1
+git -C /repo worktree add --detach -f $WT HEAD >/dev/null 2>&1 || { echo "$SID: cannot create worktree"; exit 2; }
+for m in data stat gis; do cp /repo/src/hydrodiy/$m/c_hydrodiy_$m.c $WT/src/hydrodiy/$m/; done
+cd $WT
+if ! git apply --check /verif/seeded/$SID/patch.diff 2>/dev/null; then
+  echo "$SID: patch does not apply to the current tree (needs rebasing)"; git -C /repo worktree remove --force $WT; exit 2
+fi
 git apply /verif/seeded/$SID/patch.diff
-cd /verif && ./check $PID --tier $TIER > /tmp/try_$SID.log 2>&1; RC=$?
-cd /repo && git checkout -q -- . 
+mkdir -p /tmp/mut_evidence_$SID
+cd /verif && VERIF_REPO=$WT VERIF_EVIDENCE_DIR=/tmp/mut_evidence_$SID VERIF_REPLAY_DIR=/tmp/mut_evidence_$SID ./check $PID --tier $TIER > /tmp/try_$SID.log 2>&1; RC=$?
+git -C /repo worktree remove --force $WT; rm -rf /tmp/mut_evidence_$SID
 /venv/bin/python - $SID $PID $TIER $RC <<'P'
 import json, sys, re
 sid, pid, tier, rc = sys.argv[1:]
